@@ -97,3 +97,26 @@ let handle (x : t) : (int * string list) option =
   match x with
   | L [I 14; tag; s; d; ids] -> Some (cmd_join tag s d ids)
   | _ -> handle x
+
+(* (16 cap (op...) ((received ids) ...))   op: (0 id) publish | (1) subscribe | (2 i) read one event from subscription i | (3 i) close subscription i
+   the events each consumer has received are those of Pipeline.prun on the same operations *)
+let rec int_of_nat = function O -> 0 | S n -> 1 + int_of_nat n
+let cmd_buffers cap ops received =
+  let cap = nat_of_int (d_int cap) in
+  let ops = List.map (function
+      | L [I 0; I id] -> PPublish (nat_of_int id)
+      | L [I 1] -> PSubscribe cap
+      | L [I 2; I i] -> PRead (nat_of_int i)
+      | L [I 3; I i] -> PClose (nat_of_int i)
+      | _ -> bad "buffer op") (match ops with L l -> l | _ -> bad "ops") in
+  let received = d_list (d_list d_int) received in
+  let view = prun_view ops in
+  let model = List.map (fun ((p, _), _) -> List.map int_of_nat p) view in
+  let show l = String.concat ";" (List.map (fun x -> String.concat "," (List.map string_of_int x)) l) in
+  if model = received then (List.length ops, [])
+  else (List.length ops, [Printf.sprintf "kind=buffers received=[%s] model=[%s]" (show received) (show model)])
+
+let handle (x : t) : (int * string list) option =
+  match x with
+  | L [I 16; cap; ops; r] -> Some (cmd_buffers cap ops r)
+  | _ -> handle x
